@@ -43,7 +43,7 @@ PROP = 'C10'
 
 TIERS = {
     'quick': dict(n=3, pipe_full=2, pipe_nested_full=2, pipe_allforms=1,
-                  pipe_sample=150,
+                  pipe_sample=100,
                   pipe_batch=40, sql_extra=14, sql_batch=50,
                   flag_cfgs=['FlagsQ1', 'FlagsQ2'], flag_model_only=[],
                   flag_sim=None, grow_sample=16, flag_pipe=80),
